@@ -17,6 +17,8 @@ Require Import V.Proofs.C10ImagesProofs.
 Require Import V.Proofs.C10CountersProofs.
 Require Import V.Proofs.ConductorChan.
 Require Import V.Proofs.C10ChanProofs.
+Require Import V.Model.ConductorReent.
+Require Import V.Proofs.ConductorReentProofs.
 Open Scope Z_scope.
 
 (* ---- C10_total: whatever the state and the operation - any driver event with any field values, an overrun or
@@ -163,6 +165,57 @@ Theorem C10_chan_error_closed : forall x s, inv s -> closed s = true ->
   orphans (fst (fst (on_event (EvChanError x) s))) = orphans s.
 Proof. exact chan_error_closed. Qed.
 Print Assumptions C10_chan_error_closed.
+
+(* ---- re-entrant calls: a user callback that calls the client (Model/ConductorReent.v) ----
+   FINDING class=reentrant-call-deadlock (KNOWN_FINDINGS.txt): every route from user code to the conductor locks
+   Arc<Mutex<ClientConductor>>, user callbacks run with that mutex held by their own thread, std's Mutex is not re-entrant: the
+   call never returns and the conductor thread is lost. `is_in_callback` / `ensure_not_reentrant` ("client cannot be invoked
+   within callback") are never reached - and would only report through the error handler and go on. C10_total above is the
+   statement for callbacks that do not call the client; the three theorems below delimit the class exactly. *)
+(* the witness: whatever the state and the operation, if the operation fires a user callback while the callbacks call the
+   client, it hangs (and nothing of it is observable) *)
+Theorem C10_reentrant_call_deadlocks : forall c x o,
+  r_script x <> 0 -> fires (snd (fst (snd (step c (r_s x) o)))) = true -> rstep c x (ROp o) = (x, (Hang, [], [])).
+Proof. exact reent_deadlock. Qed.
+Print Assumptions C10_reentrant_call_deadlocks.
+(* outside that class every operation answers Ok or Err, scripted callbacks or not *)
+Theorem C10_total_unless_reentrant : forall c x o,
+  fine (fst (fst (snd (rstep c x o)))) \/
+  (exists o', o = ROp o' /\ r_script x <> 0 /\ fires (snd (fst (snd (step c (r_s x) o')))) = true /\ snd (rstep c x o) = (Hang, [], [])).
+Proof. exact reent_total_or_deadlock. Qed.
+Print Assumptions C10_total_unless_reentrant.
+(* an operation whose callbacks only record, or that fires no callback, is the operation of the plain model: the conductor
+   state is exactly what it would be without scripts *)
+Theorem C10_scripted_is_plain : forall c x o,
+  r_script x = 0 \/ fires (snd (fst (snd (step c (r_s x) o)))) = false ->
+  rstep c x (ROp o) = (mkR (fst (step c (r_s x) o)) (r_script x), snd (step c (r_s x) o)) /\
+  fine (fst (fst (snd (rstep c x (ROp o))))).
+Proof. exact reent_plain. Qed.
+Print Assumptions C10_scripted_is_plain.
+(* the oracles judge scripted histories as the plain ones: true on the model's observations of every history that does not
+   dead-lock, false on every observation with a hang *)
+Theorem C10_oracle_model_scripted : forall c0 now0 tdrv tis ops,
+  Forall (fun o => match o with ROp o' => tick_ok o' | RScript _ => True end) ops ->
+  forallb (fun y => negb (is_hang y)) (rrun_obs c0 now0 tdrv tis ops) = true ->
+  holds_c10 c0 now0 tdrv tis (map plain ops) (rrun_obs c0 now0 tdrv tis ops) = true /\
+  holds_c09 c0 now0 tdrv tis (map plain ops) (rrun_obs c0 now0 tdrv tis ops) = true.
+Proof. exact oracles_reent. Qed.
+Print Assumptions C10_oracle_model_scripted.
+Theorem C10_oracle_rejects_deadlock : forall c0 now0 tdrv tis ops outs,
+  existsb is_hang outs = true -> holds_c10 c0 now0 tdrv tis ops outs = false.
+Proof. exact c10_rejects_deadlock. Qed.
+Print Assumptions C10_oracle_rejects_deadlock.
+
+Example C10_reentrant_witness :
+  (* a subscription-ready answer fires on_new_subscription, which calls add_publication: dead-lock *)
+  rrun_obs 0 1000000 10000 5000 [ROp (SetDriverHb 1000000); ROp (Add KSub 4 9 0); RScript 1; ROp (Find KSub 1); ROp (DoWork BNone);
+                                 ROp (DoWork (BEvent (EvSubReady 1 6))); ROp (Find KSub 1)] =
+    [(Ok [], [], []); (Ok [1], [], [Cmd 4 0 1 [-1; 4; 9]]); (Ok [], [], []); (Err NotReady, [], []); (Ok [0], [], []); (Hang, [], [])]
+  (* the same history with callbacks that only record goes on *)
+  /\ map (fun x : out => fst (fst x))
+       (rrun_obs 0 1000000 10000 5000 [ROp (SetDriverHb 1000000); ROp (Add KSub 4 9 0); RScript 0; ROp (DoWork (BEvent (EvSubReady 1 6))); ROp (Find KSub 1)]) =
+     [Ok []; Ok [1]; Ok []; Ok [1]; Ok [0]].
+Proof. split; vm_compute; reflexivity. Qed.
 
 (* ---- the oracle on the model ---- *)
 (* the four judges of Oracle/C10Oracle.v are true on the model's own observations, for every history whose clock does
